@@ -3965,6 +3965,220 @@ func abortCalls(repo string) {
 
 // ==== END explicit aborts =======================================================================================
 
+// ==== BEGIN ownership shapes of the receive path (C09; builder "stream") =====================================
+//
+// Which objects the receive path copies and which it shares - the facts the variants `Mem.cur` and `HdrMem.hcur`
+// (coq/Model/Mem.v, coq/Model/HdrMem.v) assert about the current code (coq/Gen/TablesOk_subpkg.v ties them):
+//
+//	gen_fastpath_clones      : bool  packageParse.unpack: an assignment `data = bytes.Clone(data)` stands before the first
+//	                                 `.Decode(data)` call (the fast path decodes a copy of the read, fix adede50)
+//	gen_history_nil          : bool  packageParse.unpack: p.historyData is assigned `nil` when consumed, and is never
+//	                                 assigned a re-slice of itself from 0 (`[0:0]`, `[:0]`) nor anything that is not
+//	                                 nil / append(p.historyData, ..) / p.historyData[end:]
+//	gen_record_header_share  : N     packageParse.add: what `packageComplete{initHeader: X}` gets: 0 = the parameter itself
+//	                                 (shared with the delivered first packet), 1 = `&v` with `v := *header` (struct copy,
+//	                                 the *BodyProperty still shared), 2 = additionally `pp := *header.Property` (or
+//	                                 `*v.Property`) and `v.Property = &pp` (fix 4b6a3bd)
+//	gen_merged_header_share  : N     packageParse.completePack: the merged message `completeMsg`: 0 = no assignment to
+//	                                 completeMsg.JTMessage (it keeps the packet's *JTMessage), 1 = `completeMsg.JTMessage = &jm`,
+//	                                 `jm := *msg.JTMessage`, `jm.Header = &ch`, `ch := *...Header`, 2 = additionally the
+//	                                 Property copy `pp := *ch.Property`, `ch.Property = &pp` (fix a3fb0a0)
+//	gen_session_header_share : N     sessionManager.join: `session{header: X}`, same classification (fix 052add1): the header
+//	                                 connection.onActiveEvent writes for every platform command is the session's own copy
+//
+// Anything else is reported in gen_unrecognised and the definition is omitted (the TablesOk obligation then fails).
+func ownershipShapes(repo string) {
+	files := parseDir(filepath.Join(repo, "service"))
+	method := func(recvType, name string) *ast.FuncDecl {
+		for _, f := range files {
+			for _, d := range f.Decls {
+				fd, ok := d.(*ast.FuncDecl)
+				if !ok || fd.Name.Name != name || fd.Recv == nil || len(fd.Recv.List) != 1 || fd.Body == nil {
+					continue
+				}
+				t := fd.Recv.List[0].Type
+				if st, ok := t.(*ast.StarExpr); ok {
+					t = st.X
+				}
+				if id, ok := t.(*ast.Ident); ok && id.Name == recvType {
+					return fd
+				}
+			}
+		}
+		return nil
+	}
+	str := func(e ast.Expr) string { return types.ExprString(e) }
+	// `name := *<expr>` definitions and `<lhs> = &<name>` assignments of a function body
+	type shape struct {
+		derefDef map[string]string // name -> expr it is a dereferenced copy of
+		addrAsg  map[string]string // lhs -> name whose address it is assigned
+	}
+	scan := func(fd *ast.FuncDecl) shape {
+		sh := shape{map[string]string{}, map[string]string{}}
+		ast.Inspect(fd.Body, func(x ast.Node) bool {
+			as, ok := x.(*ast.AssignStmt)
+			if !ok || len(as.Lhs) != 1 || len(as.Rhs) != 1 {
+				return true
+			}
+			if as.Tok == token.DEFINE {
+				if id, ok := as.Lhs[0].(*ast.Ident); ok {
+					if st, ok := as.Rhs[0].(*ast.StarExpr); ok {
+						sh.derefDef[id.Name] = str(st.X)
+					}
+				}
+			} else if as.Tok == token.ASSIGN {
+				if u, ok := as.Rhs[0].(*ast.UnaryExpr); ok && u.Op == token.AND {
+					if id, ok := u.X.(*ast.Ident); ok {
+						sh.addrAsg[str(as.Lhs[0])] = id.Name
+					}
+				}
+			}
+			return true
+		})
+		return sh
+	}
+	// classify the header value `x` (an expression) given to a holder; src = the expressions that denote the delivered header
+	classify := func(sh shape, x ast.Expr, src map[string]bool) (int, bool) {
+		if src[str(x)] {
+			return 0, true
+		}
+		u, ok := x.(*ast.UnaryExpr)
+		if !ok || u.Op != token.AND {
+			return 0, false
+		}
+		id, ok := u.X.(*ast.Ident)
+		if !ok || !src[sh.derefDef[id.Name]] {
+			return 0, false
+		}
+		pp, ok := sh.addrAsg[id.Name+".Property"]
+		if !ok {
+			return 1, true
+		}
+		from := sh.derefDef[pp]
+		if from == id.Name+".Property" {
+			return 2, true
+		}
+		for s := range src {
+			if from == s+".Property" {
+				return 2, true
+			}
+		}
+		return 0, false
+	}
+	keyed := func(fd *ast.FuncDecl, typ, field string) ast.Expr {
+		var found ast.Expr
+		ast.Inspect(fd.Body, func(x ast.Node) bool {
+			cl, ok := x.(*ast.CompositeLit)
+			if !ok {
+				return true
+			}
+			if id, ok := cl.Type.(*ast.Ident); !ok || id.Name != typ {
+				return true
+			}
+			for _, el := range cl.Elts {
+				if kv, ok := el.(*ast.KeyValueExpr); ok {
+					if k, ok := kv.Key.(*ast.Ident); ok && k.Name == field {
+						found = kv.Value
+					}
+				}
+			}
+			return true
+		})
+		return found
+	}
+	fmt.Fprintf(&out, "\n(* ownership shapes of the receive path (C09): what is copied, what is shared *)\n")
+	// ---- unpack
+	if fd := method("packageParse", "unpack"); fd == nil {
+		unrec("ownership/unpack", "method packageParse.unpack not found")
+	} else {
+		var firstDecode, clonePos token.Pos
+		histNil, histBad := false, ""
+		ast.Inspect(fd.Body, func(x ast.Node) bool {
+			switch n := x.(type) {
+			case *ast.CallExpr:
+				if se, ok := n.Fun.(*ast.SelectorExpr); ok && se.Sel.Name == "Decode" && len(n.Args) == 1 && str(n.Args[0]) == "data" {
+					if firstDecode == 0 || n.Pos() < firstDecode {
+						firstDecode = n.Pos()
+					}
+				}
+			case *ast.AssignStmt:
+				if len(n.Lhs) != 1 || len(n.Rhs) != 1 {
+					return true
+				}
+				l, r := str(n.Lhs[0]), str(n.Rhs[0])
+				if l == "data" && r == "bytes.Clone(data)" && (clonePos == 0 || n.Pos() < clonePos) {
+					clonePos = n.Pos()
+				}
+				if l == "p.historyData" {
+					switch {
+					case r == "nil":
+						histNil = true
+					case strings.HasPrefix(r, "append(p.historyData, "):
+					case strings.HasPrefix(r, "p.historyData[") && strings.HasSuffix(r, ":]") && !strings.HasPrefix(r, "p.historyData[0:") && !strings.HasPrefix(r, "p.historyData[:"):
+					default:
+						histBad = r
+					}
+				}
+			}
+			return true
+		})
+		if firstDecode == 0 {
+			unrec("ownership/unpack", "no .Decode(data) call")
+		} else {
+			fmt.Fprintf(&out, "Definition gen_fastpath_clones : bool := %v.\n", clonePos != 0 && clonePos < firstDecode)
+		}
+		if histBad != "" && histBad != "p.historyData[0:0]" && histBad != "p.historyData[:0]" {
+			unrec("ownership/unpack", "p.historyData is assigned "+histBad)
+		} else {
+			fmt.Fprintf(&out, "Definition gen_history_nil : bool := %v.\n", histNil && histBad == "")
+		}
+	}
+	// ---- add: the timeout record's header
+	if fd := method("packageParse", "add"); fd == nil {
+		unrec("ownership/add", "method packageParse.add not found")
+	} else if v := keyed(fd, "packageComplete", "initHeader"); v == nil {
+		unrec("ownership/add", "no packageComplete{initHeader: ..}")
+	} else if k, ok := classify(scan(fd), v, map[string]bool{hdrParam(fd, 1): true}); !ok {
+		unrec("ownership/add", "initHeader: "+str(v)+" is neither the parameter nor a recognised copy of it")
+	} else {
+		fmt.Fprintf(&out, "Definition gen_record_header_share : N := %d.\n", k)
+	}
+	// ---- completePack: the merged message's header
+	if fd := method("packageParse", "completePack"); fd == nil {
+		unrec("ownership/completePack", "method packageParse.completePack not found")
+	} else {
+		sh := scan(fd)
+		jm, has := sh.addrAsg["completeMsg.JTMessage"]
+		switch {
+		case !has:
+			fmt.Fprintf(&out, "Definition gen_merged_header_share : N := 0.\n")
+		case sh.derefDef[jm] != "msg.JTMessage":
+			unrec("ownership/completePack", "completeMsg.JTMessage = &"+jm+" which is not a copy of *msg.JTMessage")
+		default:
+			ch, ok := sh.addrAsg[jm+".Header"]
+			if !ok {
+				fmt.Fprintf(&out, "Definition gen_merged_header_share : N := 0.\n") // own JTMessage struct, same *Header
+			} else if k, ok := classify(sh, &ast.UnaryExpr{Op: token.AND, X: ast.NewIdent(ch)}, map[string]bool{"msg.JTMessage.Header": true, jm + ".Header": true}); !ok {
+				unrec("ownership/completePack", jm+".Header = &"+ch+" is not a recognised copy of the packet's header")
+			} else {
+				fmt.Fprintf(&out, "Definition gen_merged_header_share : N := %d.\n", k)
+			}
+		}
+	}
+	// ---- sessionManager.join: the header platform commands are encoded on
+	if fd := method("sessionManager", "join"); fd == nil {
+		unrec("ownership/join", "method sessionManager.join not found")
+	} else if v := keyed(fd, "session", "header"); v == nil {
+		unrec("ownership/join", "no session{header: ..}")
+	} else if k, ok := classify(scan(fd), v, map[string]bool{hdrParam(fd, 0) + ".Header": true, hdrParam(fd, 0) + ".JTMessage.Header": true}); !ok {
+		unrec("ownership/join", "header: "+str(v)+" is neither the message's header nor a recognised copy of it")
+	} else {
+		fmt.Fprintf(&out, "Definition gen_session_header_share : N := %d.\n", k)
+	}
+}
+
+// ==== END ownership shapes ====================================================================================
+
 func main() {
 	repo := flag.String("repo", "/repo", "repository root")
 	outp := flag.String("out", "", "output .v file")
@@ -3993,6 +4207,7 @@ func main() {
 	timeCalls(*repo)    // timers, sleeps and deadlines of service / attachment (C11 C12 C13)
 	abortCalls(*repo)   // explicit panic / os.Exit / log.Fatal calls (C03 C10 C13)
 	stringOps(*repo)    // String() methods: partial operations and callees (C03)
+	ownershipShapes(*repo) // what the receive path copies / shares (C09)
 	q := make([]string, len(unrecognised))
 	for i, u := range unrecognised {
 		q[i] = strconv.Quote(u) + "%string"
